@@ -128,11 +128,37 @@ func c17Run(tier string, seed int64, idx int) *core.Result {
 		return &wire.Rpc{Id: uint64(n), Header: &goatorepo.RequestHeader{Method: "/x/y", Source: src, Destination: dst}, Body: &goatorepo.Body{Data: []byte{byte(n)}}}
 	}
 	count := func(p *c17Peer) int { p.mu.Lock(); defer p.mu.Unlock(); return len(p.got) }
+	// write hands one envelope to the proxy; a proxy that no longer takes envelopes from a healthy
+	// peer (final state with the write pending) is a stall, not a hung driver
+	write := func(from *c17Peer, e *wire.Rpc, what string) bool {
+		var err error
+		wctx, wcancel := context.WithCancel(ctx)
+		defer wcancel()
+		done := make(chan struct{})
+		go func() { err = from.link.A.Write(wctx, e); close(done) }()
+		st, snap := settle(tier, func() bool {
+			select {
+			case <-done:
+				return true
+			default:
+				return false
+			}
+		})
+		if st == "stuck" {
+			res.ViolateD("proxy-stops-reading-from-healthy-peer/"+c.Variant, map[string]any{"goat_goroutines": goatParked(snap)}, "%s: the proxy no longer takes envelopes from %s (final state with the write pending)", what, from.name)
+			return false
+		}
+		if st == "timeout" {
+			res.Verdict, res.Note = core.Inconclusive, "watchdog"
+			return false
+		}
+		return err == nil
+	}
 	// sendChecked writes envelopes a0->a1 one at a time (waits for each to arrive) and reports the first that is lost
 	sendChecked := func(from, to *c17Peer, lo, hi int, what string) bool {
 		for n := lo; n < hi; n++ {
 			before := count(to)
-			if err := from.link.A.Write(ctx, env(from.name, to.name, n)); err != nil {
+			if !write(from, env(from.name, to.name, n), what) {
 				return false
 			}
 			st, snap := settle(tier, func() bool { return count(to) > before })
@@ -169,7 +195,7 @@ func c17Run(tier string, seed int64, idx int) *core.Result {
 					e = &wire.Rpc{Id: uint64(3000 + n), Body: &goatorepo.Body{Data: []byte{1}}}
 				}
 				core.Cursor(fmt.Sprintf("proxy peer a0 sends envelope kind %s", kind))
-				if err := a0.link.A.Write(ctx, e); err != nil {
+				if !write(a0, e, "hostile envelope") {
 					break
 				}
 			}
@@ -199,14 +225,14 @@ func c17Run(tier string, seed int64, idx int) *core.Result {
 			switch c.Variant {
 			case "stuck-writer":
 				bad = mkPeer("bad", false) // never reads
-				px.AddClient("bad", bad.link.B)
+				guarded(tier, res, "Proxy.AddClient", func() { px.AddClient("bad", bad.link.B) })
 			case "failing-reader":
 				bad = mkPeer("bad", true)
-				px.AddClient("bad", bad.link.B)
+				guarded(tier, res, "Proxy.AddClient", func() { px.AddClient("bad", bad.link.B) })
 				bad.link.B.FailRead()
 			case "failing-writer":
 				bad = mkPeer("bad", true)
-				px.AddClient("bad", bad.link.B)
+				guarded(tier, res, "Proxy.AddClient", func() { px.AddClient("bad", bad.link.B) })
 				bad.link.B.FailWrite()
 			case "slow-dial":
 				bad = mkPeer("slow", true)
@@ -219,7 +245,7 @@ func c17Run(tier string, seed int64, idx int) *core.Result {
 		if next() {
 			// traffic towards the bad peer (up to twice its buffer), interleaved with healthy traffic
 			for n := 0; n < 40 && res.Verdict == core.Held && len(res.Violations) == 0; n++ {
-				if err := a0.link.A.Write(ctx, env("a0", dst, 100+n)); err != nil {
+				if !write(a0, env("a0", dst, 100+n), "traffic towards the "+c.Variant+" peer") {
 					break
 				}
 				if n%8 == 7 {
@@ -246,11 +272,13 @@ func c17Run(tier string, seed int64, idx int) *core.Result {
 				if n < 1 {
 					res.Violate("failed-connection-not-reported/"+c.Variant, "connection 'bad' failed (%s) but the disconnect callback was not invoked for it", c.Variant)
 				}
-				for _, p := range goat.VerifProxyPeers(px) {
-					if p == "bad" && goat.VerifProxyPeerConn(px, "bad") == goat.RpcReadWriter(bad.link.B) {
-						res.Violate("failed-connection-not-removed/"+c.Variant, "connection 'bad' failed but is still in the proxy's table")
+				guarded(tier, res, "proxy peer table lookup", func() {
+					for _, p := range goat.VerifProxyPeers(px) {
+						if p == "bad" && goat.VerifProxyPeerConn(px, "bad") == goat.RpcReadWriter(bad.link.B) {
+							res.Violate("failed-connection-not-removed/"+c.Variant, "connection 'bad' failed but is still in the proxy's table")
+						}
 					}
-				}
+				})
 				res.Stat("failure_reports_checked", 1)
 			}
 			if c.Variant == "dial-error" {
@@ -271,7 +299,7 @@ func c17Run(tier string, seed int64, idx int) *core.Result {
 		switch c.Variant {
 		case "reattach-before-old-fails", "reattach-before-old-write-fails":
 			if next() {
-				px.AddClient("a1", newer.link.B)
+				guarded(tier, res, "Proxy.AddClient", func() { px.AddClient("a1", newer.link.B) })
 				quiet(tier)
 			}
 			if next() {
@@ -289,12 +317,16 @@ func c17Run(tier string, seed int64, idx int) *core.Result {
 				quiet(tier)
 			}
 			if next() {
-				px.AddClient("a1", newer.link.B)
+				guarded(tier, res, "Proxy.AddClient", func() { px.AddClient("a1", newer.link.B) })
 				quiet(tier)
 			}
 		}
 		if next() {
-			if got := goat.VerifProxyPeerConn(px, "a1"); got != goat.RpcReadWriter(newer.link.B) {
+			var got goat.RpcReadWriter
+			if !guarded(tier, res, "proxy peer table lookup", func() { got = goat.VerifProxyPeerConn(px, "a1") }) {
+				got = newer.link.B
+			}
+			if got != goat.RpcReadWriter(newer.link.B) {
 				res.Violate("newer-connection-lost/"+c.Variant, "after the old 'a1' connection failed the proxy's table no longer holds the newer 'a1' connection (holds %v)", got != nil)
 			}
 			res.Stat("reattach_checked", 1)
